@@ -30,6 +30,12 @@ func Transact(db *gorm.DB, fnList ...GormProcFn) (err error) {
 		return
 	}
 
+	// a handle that already carries an error would hand that error to the handle Begin returns
+	// although a transaction was begun: nobody would ever finish it
+	if err = db.Error; err != nil {
+		return
+	}
+
 	var txn = db.Begin()
 	if err = txn.Error; err != nil {
 		return
